@@ -28,7 +28,7 @@ RULE = ("a case is one honest multi-peer history of one particle (generated scri
         "evaluations = runs of execute_air; distinct non-trivial = (script, run position, code, trace length) of runs whose "
         "output trace is not empty. Streams of cases: random scripts over 3-5 peers with streams / canon / scalar and stream "
         "folds / new / xor / failing services (ret_code != 0) / services whose result is not JSON / calls without output; relay "
-        "chains through 3-5 peers mixing all of these; recursive stream folds (known finding stream-fold-cursor-hole).")
+        "chains through 3-5 peers mixing all of these; par windows of different shape meeting at one peer; recursive stream folds (known finding stream-fold-cursor-hole).")
 PARTIAL = ["C03_full is kept as a Definition. Proved for every script / data / results / fuel over run2 (call, seq, par, xor, match, "
            "fail, ap, new, scalar folds, streams, canon, stream folds, compactification): the signed multiset equals the multiset "
            "the verifier attributes to the current peer (C03_own_signature), the verifier's lookups succeed, the own signature "
@@ -65,6 +65,18 @@ HOLE_SCRIPT = ('(seq (par (call "@B" ("s" "va") [] $s) (call "@C" ("s" "vb") [] 
                '(seq (call "@D" ("s" "note") [i]) (next i)))) (null)) (call "@D" ("s" "end") []))))')
 HOLE_SERVICES = [["s", "va", {"const": "a"}], ["s", "vb", {"const": "b"}], ["s", "gate", {"const": 1}], ["s", "visit", {"echo": 0}],
                  ["s", "note", {"const": 0}], ["s", "end", {"const": 0}]]
+
+
+# par windows of different shape meeting at one peer, continued on another peer (the par FSM left-window defect, fixed in /repo
+# by f72c6f7, showed up here as a signature that no longer covered the owner's results: corpus/C03/par_left_window_signature.json)
+PAR_SCRIPTS = [
+    '(seq (par (seq (par (call "@C" ("s" "args") [[]] v1) (call "@B" ("s" "arr") [] v2)) (call "@A" ("s" "num") ["lit" v1 v2.$.length])) '
+    '(new v7 (call "@A" ("s" "tag") [] v7))) (call "@B" ("s" "tag") [] z))',
+    '(seq (par (seq (par (call "@C" ("s" "args") [[]] v1) (call "@B" ("s" "arr") [] v2)) (call "@A" ("s" "num") ["lit" v1 v2.$.length])) '
+    '(par (call "@A" ("s" "tag") [] v7) (call "@C" ("s" "tag") [] v8))) (call "@B" ("s" "tag") [] z))',
+    '(seq (par (seq (par (call "@B" ("s" "tag") [] v1) (call "@C" ("s" "bad") [] v2)) (call "@A" ("s" "id") [v2])) '
+    '(seq (call "@A" ("s" "tag") [] $st) (canon "@A" $st #can))) (call "@C" ("s" "args") [#can] z))',
+]
 
 
 def sprinkle_bad(rng, script, p):
@@ -152,7 +164,7 @@ def gen_cases(rng, tier, escalate=False):
     quick = tier == "quick"
     mul = 3 if escalate else 1
     cases = []
-    for k in range((26 if quick else 300) * mul):
+    for k in range((22 if quick else 240) * mul):
         kw = dict(peers=rng.choice([3, 3, 4, 5]), depth=rng.choice([2, 3, 3, 4]), recursive_streams=False)
         r = rng.random()
         if r < 0.25:
@@ -164,11 +176,18 @@ def gen_cases(rng, tier, escalate=False):
         prof = airgen.Profile(**kw)
         script = sprinkle_bad(rng, airgen.gen_script(rng, prof), rng.choice([0.0, 0.3, 0.6]))
         cases.append(case_of(script, prof.peers, rand_ops(rng, rng.choice([8, 14, 22]), prof.peers), SERVICES, "random", rng.randrange(1 << 30)))
-    for k in range((16 if quick else 200) * mul):
+    for k in range((14 if quick else 160) * mul):
         n = rng.choice([3, 4, 4, 5])
         cases.append(case_of(relay_script(rng, n), n, rand_ops(rng, rng.choice([6, 12, 20]), n), SERVICES, "relay", rng.randrange(1 << 30)))
+    for k in range((6 if quick else 80) * mul):
+        if rng.random() < 0.6:
+            script, n = rng.choice(PAR_SCRIPTS), 3
+        else:
+            prof = airgen.Profile(peers=3, depth=rng.choice([3, 4]), par_weight=8, recursive_streams=False)
+            script, n = airgen.gen_script(rng, prof), 3
+        cases.append(case_of(script, n, rand_ops(rng, rng.choice([10, 20]), n), SERVICES, "par", rng.randrange(1 << 30)))
     # recursive stream folds: the known finding (a third peer loses a foreign executed state; the carried signature breaks)
-    for k in range((5 if quick else 40) * mul):
+    for k in range((4 if quick else 30) * mul):
         if rng.random() < 0.5:
             cases.append(case_of(HOLE_SCRIPT, 4, rand_ops(rng, 30, 4), HOLE_SERVICES, "recursive_folds", rng.randrange(1 << 30)))
         else:
